@@ -28,6 +28,7 @@ pub struct Metainfo {
     piece_length: u64,
     pieces: Vec<[u8; HASH_SIZE]>,
     files: Vec<File>,
+    multi_files: bool,
     info_hash: [u8; HASH_SIZE],
 }
 
@@ -195,6 +196,7 @@ impl Metainfo {
             piece_length: Self::find_piece_length(dict)?,
             pieces: Self::find_pieces(dict)?,
             files,
+            multi_files: length.is_none(),
             info_hash: Self::calculate_hash(data)?,
         };
 
@@ -353,7 +355,8 @@ impl Metainfo {
 
     /// Return vector with information which pieces contain which files.
     pub fn file_piece_ranges(&self) -> Vec<(PathBuf, PiecePos, PiecePos)> {
-        let dir = match self.files.len() > 1 {
+        // Files of multi-file torrent go to directory named by torrent, even if there is only one
+        let dir = match self.multi_files {
             true => PathBuf::from(&self.name),
             false => PathBuf::new(),
         };
